@@ -73,8 +73,17 @@ def gen_func(rng, max_blocks=4):
                 insts.append({"row": 23, "ty": pt, "res": fresh_ident(), "has": True})
             elif k < 0.87:
                 insts.append({"row": 24, "ty": rng.choice(PTR_TYS), "res": None, "has": False})
-            else:
+            elif k < 0.93:
                 insts.append({"row": 25, "ty": rng.choice(INT_TYS + PTR_TYS), "res": fresh_ident(), "has": True})
+            elif k < 0.96:
+                # conversions: (row, from, to)
+                r, a, b = rng.choice([(30, "i64", "i8"), (31, "i8", "i64"), (32, "i8", "i32"), (39, "p0(i8)", "i64"), (40, "i64", "p0(i8)"), (41, "p0(i8)", "p0(i32)"),
+                                      (41, "i32", "V4(i8)"), (42, "p0(i8)", "p1(i64)"), (30, "V4(i32)", "V4(i8)"), (31, "S2(i8)", "S2(i64)"), (41, "V2(i64)", "V4(i32)")])
+                insts.append({"row": r, "ty": a, "to": b, "res": fresh_ident(), "has": True})
+            elif k < 0.985:
+                insts.append({"row": 43, "ty": rng.choice(INT_TYS + PTR_TYS), "res": fresh_ident(), "has": True, "n": rng.randint(1, 3)})
+            else:
+                insts.append({"row": 44, "ty": rng.choice(INT_TYS + PTR_TYS), "res": fresh_ident(), "has": True})
         blocks.append({"label": fresh_ident(), "insts": insts})
     # result types
     def res_ty(i):
@@ -84,7 +93,8 @@ def gen_func(rng, max_blocks=4):
             m = re.fullmatch(r"([VS])(\d+)\((.*)\)", t)
             return "%s%s(i1)" % (m.group(1), m.group(2)) if m else "i1"
         if r == 23: return pointee(t)
-        if r == 25: return t
+        if r == 25 or r in (43, 44): return t
+        if 30 <= r <= 42: return i["to"]
         return None
     # LLVM numbering of the unnamed values
     n = 0
@@ -126,6 +136,12 @@ def gen_func(rng, max_blocks=4):
                 args = "T%s!P%s=%s" % (pointee(t), t, operand(t))
             elif r == 24:
                 args = "P%s=%s!P%s=%s" % (pointee(t), operand(pointee(t)), t, operand(t))
+            elif 30 <= r <= 42:
+                args = "P%s=%s!T%s" % (t, operand(t), i["to"])
+            elif r == 43:
+                args = "T%s!H%s" % (t, "&".join("%s~%s" % (operand(t), rng.choice(labels)) for _ in range(i["n"])))
+            elif r == 44:
+                args = "P%s=%s" % (t, operand(t))
             else:
                 args = "Pi1=%s!P%s=%s!P%s=%s" % (operand("i1"), t, operand(t), t, operand(t))
             parts.append("%s:%d:%s" % (i["ident"], r, args))
